@@ -107,8 +107,16 @@ def r_smoother(name):
             return nj(name, (yz, w, p, SR, case["robust"]))
         if name == "ws2doptvplc.ws2doptvplc_tyx":
             yi = y.astype("int16")
-            cube = np.ascontiguousarray(np.stack([yi, yi[::-1], np.roll(yi, 3), yi], 1).reshape(n, 2, 2))
-            return nj(name, (cube, p, -1), twin_args=(_widen(cube), p, -1))
+            cube = np.ascontiguousarray(np.stack([yi, yi[::-1], np.roll(yi, 3), yi, np.roll(yi, 7), np.roll(yi[::-1], 2)], 1).reshape(n, 3, 2))
+            got, tw = nj(name, (cube, p, -1), twin_args=(_widen(cube), p, -1))
+            # the kernel is parallel (prange over rows): the interpreted source is sequential, so every repeated compiled
+            # run must reproduce the first one, too
+            for _ in range(4):
+                again = call(name, PROGS[name], cube, p, -1)
+                if not all(np.array_equal(a, b) for a, b in zip(got, again)):
+                    raise Violation("%s: repeated compiled runs on the same input differ (the interpreted source is deterministic)" % name,
+                                    name + " compiled run not reproducible")
+            return got, tw
         raise KeyError(name)
     return run
 
